@@ -26,6 +26,43 @@ def what_of(d: Path) -> str:
     return f"`{', '.join(files)}` - {first_sentence(head, 200)}"
 
 
+def section9() -> str:
+    d = json.loads((VERIF / "known_findings.json").read_text())
+    why = json.loads((VERIF / "tools" / "why_not_repaired.json").read_text())
+    rows = []
+    for s in d["fixed"]:
+        m = re.match(r"fixed: property=(C\d+) (\S+) (.*)", s)
+        what = re.sub(r"\s*\([^()]*replays? [^()]*\)", "", m.group(3))
+        rows.append((m.group(1), m.group(2), what.replace("|", "/")))
+    rows.sort(key=lambda r: r[0])
+    table = "| property | commit | defect (each has a regression replay under replays/<property>/) |\n|---|---|---|\n" + "\n".join(
+        f"| {p} | {h} | {w} |" for p, h, w in rows)
+    open_rows = sorted(
+        f"| {e['id']} | {first_sentence(e['what'].replace('|', '/'), 300)} | {why.get(e['id'], 'not small and safe')} |"
+        for e in d["findings"] if e["status"] == "open")
+    otable = "| id | defect | why recorded rather than repaired |\n|---|---|---|\n" + "\n".join(open_rows)
+    return f"""## 9. Genuine defects found (all reproduced by a registered check, replay kept)
+
+{len(rows)} entries are repaired in `/repo` by minimal unguarded `fix:` commits (listed under `fixed` in
+`known_findings.json`; this table is generated from it by `tools/gen_design_tables.py`). The repository's test suite
+was re-run serially on the repaired tree: the same 14 tests fail as on the pinned tree in this sandbox (13 of the
+baseline's always-failing tests plus one image comparison that depends on the environment).
+
+{table}
+
+Recorded, not repaired ({len(open_rows)} open entries of `known_findings.json`; the check prints `KNOWN-FINDING`, excludes exactly
+the class and counts the exclusions in the evidence):
+
+{otable}
+
+Observations outside the statements (not asserted, not ledgered) are listed in the module docstrings / ASSUMPTIONS of
+the checks (e.g. iterating an empty `HDF5Cache` raises, `PYDOE_CCDESIGN` leaves the box by design, SLSQP stalling on
+recorded points, `compute_pareto_optimal_points` dropping duplicated non-dominated points, operators declaring the
+dimension of their first operand).
+
+"""
+
+
 def main() -> None:
     rows, n_caught, n_other, n_missed = [], 0, 0, 0
     for meta in sorted((VERIF / "seeded").glob("*/meta.json")):
@@ -69,8 +106,9 @@ led to stronger generators/oracles (last column); the oracles were never loosene
 """
     p = VERIF / "DESIGN.md"
     s = p.read_text()
+    a9 = s.index("## 9. Genuine defects found")
     a = s.index("## 10. Seeded changes")
-    p.write_text(s[:a] + text)
+    p.write_text(s[:a9] + section9() + text)
     print(f"{len(rows)} seeded: {n_caught} caught, {n_other} by other check, {n_missed} missed")
 
 
